@@ -433,5 +433,27 @@ func IsCompositeSequenceDFAPattern(re *syntax.Regexp) bool {
 		}
 	}
 
+	return compositePartsSearchLinear(parts)
+}
+
+// compositePartsSearchLinear reports whether SearchAt, which runs the DFA anew from
+// every candidate start, stays linear in the haystack length for these cc+ parts.
+//
+// With two parts a failed attempt never leaves the first part's run of bytes, and with
+// pairwise disjoint neighbours the parse from a start is unique (one maximal run per
+// part), so no byte is visited more than len(parts) times. With three or more parts and
+// overlapping neighbours (`[a-z]+[0-9a-z]+[A-Z]+` on "a1a1a1...") every start can scan
+// to the end of the haystack before failing; such patterns are left to the general engines.
+func compositePartsSearchLinear(parts []*charClassPart) bool {
+	if len(parts) <= 2 {
+		return true
+	}
+	for i := 0; i+1 < len(parts); i++ {
+		for b := 0; b < 256; b++ {
+			if parts[i].membership[b] && parts[i+1].membership[b] {
+				return false
+			}
+		}
+	}
 	return true
 }
